@@ -27,6 +27,13 @@ def _work(modname, tname, prefixes, budget, seed):
         return modname, tname, {'crash': f'{type(e).__name__}: {e}', 'trace': traceback.format_exc()[-2000:]}
 
 
+def _child(tx, modname, tname, prefixes, budget, seed):
+    try:
+        tx.send(_work(modname, tname, prefixes, budget, seed))
+    finally:
+        tx.close()
+
+
 def merge(a, b):
     if a is None:
         return b
@@ -52,26 +59,36 @@ def run_targets(items, jobs=None, budget=12, seed=0, progress=False):
     ctx = mp.get_context('spawn')
     t0 = time.time()
     # one fresh interpreter per work item: z3 keeps process-wide state (AST ids, name counters) and a quantified obligation that takes
-    # milliseconds in a fresh process was seen to take minutes - or end `unknown` - in a worker that had served another target before
-    with ProcessPoolExecutor(max_workers=jobs, mp_context=ctx, max_tasks_per_child=1) as ex:
-        running = set()
-        while pending or running:
-            while pending and len(running) < jobs * 2:
-                m, t, pf = pending.pop()
-                running.add(ex.submit(_work, m, t, pf, budget, seed))
-            done, running = wait(running, return_when=FIRST_COMPLETED)
-            for fu in done:
-                m, t, r = fu.result()
-                if 'crash' in r:
-                    crashes[t] = r
-                    continue
-                left = r.pop('leftover', [])
-                results[t] = merge(results.get(t), r)
-                # split leftover prefixes into separate items so other workers can take them
-                for pf in left:
-                    pending.append((m, t, [pf]))
-            if progress:
-                print(f'[{time.time()-t0:6.1f}s] running={len(running)} pending={len(pending)}', file=sys.stderr)
+    # milliseconds in a fresh process was seen to take minutes - or end `unknown` - in a worker that had served another target before.
+    # (Own scheduler over multiprocessing.Process + Pipe: ProcessPoolExecutor(max_tasks_per_child=1) can deadlock on CPython 3.12.1.)
+    from multiprocessing.connection import wait as _wait
+    running = {}  # parent end of the pipe -> (process, module, target)
+    while pending or running:
+        while pending and len(running) < jobs:
+            m, t, pf = pending.pop()
+            rx, tx = ctx.Pipe(duplex=False)
+            pr = ctx.Process(target=_child, args=(tx, m, t, pf, budget, seed), daemon=True)
+            pr.start()
+            tx.close()
+            running[rx] = (pr, m, t)
+        for rx in _wait(list(running), timeout=5.0):
+            pr, m, t = running.pop(rx)
+            try:
+                m, t, r = rx.recv()
+            except (EOFError, OSError) as e:
+                r = {'crash': f'worker process ended without a result ({type(e).__name__}, exit code {pr.exitcode})', 'trace': ''}
+            rx.close()
+            pr.join(timeout=10)
+            if 'crash' in r:
+                crashes[t] = r
+                continue
+            left = r.pop('leftover', [])
+            results[t] = merge(results.get(t), r)
+            # split leftover prefixes into separate items so other workers can take them
+            for pf in left:
+                pending.append((m, t, [pf]))
+        if progress:
+            print(f'[{time.time()-t0:6.1f}s] running={len(running)} pending={len(pending)}', file=sys.stderr)
     # modular loop cuts: every path of the entry phase and the representative path of the body phase must have reached the loop
     # head with the same (non-havocked) state; otherwise the body phase proved something about the wrong state: undecided
     import re as _re
